@@ -187,6 +187,11 @@ pub fn catalogue() -> Vec<Problem> {
         Problem { name: "rest", blocks: vec![Rest], rotated: false, u0: vec![1.25] },
         Problem { name: "bernoulli", blocks: vec![Bernoulli], rotated: false, u0: vec![1.0] },
         Problem { name: "osc1", blocks: vec![Osc(1.0)], rotated: false, u0: vec![1.0, 0.0] },
+        // unrotated direct sums: the components have very different (or exactly zero) local errors, so an error
+        // estimate that looks at one component only, or at the smallest one, is blind on them
+        Problem { name: "sum2:lin+1+rest", blocks: vec![Lin(1.0), Rest], rotated: false, u0: vec![1.0, 0.75] },
+        Problem { name: "sum2:rest+lin+1", blocks: vec![Rest, Lin(1.0)], rotated: false, u0: vec![0.75, 1.0] },
+        Problem { name: "sum2:lin+1+lin-2", blocks: vec![Lin(1.0), Lin(-2.0)], rotated: false, u0: vec![1.0, 1.0] },
         Problem { name: "rot2:lin-2+logistic", blocks: vec![Lin(-2.0), Logistic], rotated: true, u0: vec![0.8, 0.3] },
         Problem { name: "rot2:cost+relax", blocks: vec![CosT, Relax], rotated: true, u0: vec![-0.6, 2.0] },
         Problem { name: "rot3:osc2.5+gauss", blocks: vec![Osc(2.5), Gauss], rotated: true, u0: vec![0.5, -0.5, 1.0] },
